@@ -411,8 +411,17 @@ func (vc *VC) execInstr(f *Frame, n *Node, in ssa.Instruction) {
 		}
 	case *ssa.If:
 		c := f.get(in.Cond, n).C[0]
-		vc.edgeTo(f, n, n.Succs[0], vc.def("Bool", and(n.Reach, c), "e"))
-		vc.edgeTo(f, n, n.Succs[1], vc.def("Bool", and(n.Reach, not(c)), "e"))
+		e0 := vc.def("Bool", and(n.Reach, c), "e")
+		e1 := vc.def("Bool", and(n.Reach, not(c)), "e")
+		if f.depth == 0 && f.fc != nil && f.fc.Prune {
+			if vc.infeasibleT(e1, "branch not taken"+f.where(in), 45) {
+				e1 = "false"
+			} else if vc.infeasibleT(e0, "branch taken"+f.where(in), 45) {
+				e0 = "false"
+			}
+		}
+		vc.edgeTo(f, n, n.Succs[0], e0)
+		vc.edgeTo(f, n, n.Succs[1], e1)
 	case *ssa.Jump:
 		vc.edgeTo(f, n, n.Succs[0], n.Reach)
 	case *ssa.Return:
